@@ -320,6 +320,62 @@ def rule_po2_product(rep, repo, tier):
     raise AnalysisError("instance-count only %d po2 x po2 pairs" % n)
 
 
+def rule_products_are_independent(rep, repo):
+  """R11: a multiplier keeps the type it was built with.  One factory builds
+  two multipliers of the same operand kinds but different widths / signs;
+  the first one's output type must not change, must not be the second one's
+  object, and must not be one of the operands handed in (a shared prototype
+  or an aliased operand lets a later call rewrite an earlier result)."""
+  mf = repo.module(MF)
+  unit = "%s::MultiplierFactory.make_multiplier" % mf.relpath
+  rep.unit(unit)
+  loc = mf.loc(mf.classes["MultiplierFactory"].node)
+  fields = ("mode", "bits", "int_bits", "is_signed", "max_val_po2", "name")
+  pairs = [("fixed_s", "fixed_s"), ("fixed_u", "fixed_s"),
+           ("po2_s", "fixed_s"), ("fixed_s", "po2_u"), ("po2_s", "po2_s"),
+           ("ternary", "fixed_s"), ("binary", "fixed_u"),
+           ("binary01", "fixed_s"), ("fixed_s", "ternary")]
+  n = 0
+  for kw, kx in pairs:
+    pe = PE(repo)
+    fac = pe.call(pe.lookup_global("MultiplierFactory", mf), [], {})
+
+    def operand(kind, tag, bits, ib):
+      q = ta.make_operand(pe, repo, kind, tag)
+      if kind.startswith("fixed"):
+        q.attrs["bits"], q.attrs["int_bits"] = bits, ib
+      elif kind.startswith("po2"):
+        q.attrs["bits"] = q.attrs["int_bits"] = bits
+      return q
+    cfg = "make_multiplier(%s, %s) twice on one factory" % (kw, kx)
+    try:
+      w1, x1 = operand(kw, "w", 5, 2), operand(kx, "x", 6, 1)
+      a = pe.call(pe.getattr(fac, "make_multiplier"), [w1, x1], {})
+      before = {f_: a.attrs["output"].attrs.get(f_) for f_ in fields}
+      w2, x2 = operand(kw, "w", 3, 0), operand(kx, "x", 2, 0)
+      b = pe.call(pe.getattr(fac, "make_multiplier"), [w2, x2], {})
+    except PyRaise as e:
+      rep.fail("R11", unit, "factory-raises", "%s raises %s" % (cfg, e),
+               loc=loc, instance=cfg)
+      continue
+    n += 1
+    after = {f_: a.attrs["output"].attrs.get(f_) for f_ in fields}
+    ao, bo = a.attrs["output"], b.attrs["output"]
+    rep.check(after == before and ao is not bo, "R11", unit,
+              "earlier-product-changed-by-later-call",
+              "%s: the first multiplier reported %r, after the second call "
+              "it reports %r (%s)" % (
+                  cfg, before, after, "both share one output object"
+                  if ao is bo else "distinct objects"), loc=loc,
+              instance=cfg)
+    rep.check(all(ao is not q for q in (w1, x1, w2, x2)), "R11", unit,
+              "output-type-is-an-operand-object",
+              "%s: the output type of the multiplier is one of the operand "
+              "objects handed in" % cfg, loc=loc, instance=cfg)
+  if n < 8:
+    raise AnalysisError("instance-count only %d factory sequences" % n)
+
+
 def run(rep, repo, tier):
   DOM.clear()
   DOM.update(DOM_THOROUGH if tier == "thorough" else DOM_QUICK)
@@ -538,6 +594,8 @@ def run(rep, repo, tier):
   rule_conversion(rep, repo, tier)
   rep.require_instances("R9", 40)
   rule_po2_product(rep, repo, tier)
+  rule_products_are_independent(rep, repo)
+  rep.require_instances("R11", 16)
   rep.require_instances("R10", 200)
   rep.require_instances("R1", 36)
   rep.require_instances("R2", 60)
